@@ -26,6 +26,15 @@ var stepFuturePrograms = []string{
 	"(do (def n %d) (def f (future (do (sleep 150) :late))) [(future-done? f) (deref f) (future-done? f)])",
 }
 
+// programs in which a RAW builtin (bound without lib/call: nothing recovers its panics) panics below a builtin callback:
+// whatever the stepper answers, the program computes what it computes without one.  %d is ignored.
+var stepRawPrograms = []string{
+	`(do (def n %d) (try (map (fn [i] (raw-nth i)) [1 7]) (catch e (str "caught: " e))))`,
+	`(do (def n %d) (try (apply (fn [i] (raw-nth i)) [7]) (catch e (str "caught: " e))))`,
+	`(do (def n %d) (def a (atom 0)) (try (swap! a (fn [x] (raw-nth 9))) (catch e (str "caught: " e))))`,
+	`(do (def n %d) (try (list 1 (raw-nth 1) (raw-panic! {:v 1})) (catch e e)))`,
+}
+
 var stepLongPrograms = []string{
 	"(do (def sum (fn [n acc] (if (< n 1) acc (sum (- n 1) (+ acc n))))) (sum %d 0))",
 	"(do (def cnt (fn [n acc] (cond (< n 1) acc :else (cnt (- n 1) (+ acc 1))))) (cnt %d 0))",
@@ -46,6 +55,18 @@ func (e *stepLongEngine) generate(r *rng, n int, tier string, emit func(string))
 			for _, script := range []string{"n", "i", "xn", "inonxo"} {
 				emit(fmt.Sprintf("prog=%d n=%d s=%s", p, sz, script))
 			}
+		}
+	}
+	for p := range stepRawPrograms {
+		for _, script := range []string{"n", "x", "nx", "nnx", "nnnx", "nnnnx", "nnnnnx", "nnnnnnx", "ix", "iix", "iiix", "iiiix", "iiiiix", "iiiiiix", "xix", "inx", "nix", "o", "io", "iio"} {
+			emit(fmt.Sprintf("prog=%d n=1 s=%s", 200+p, script))
+		}
+	}
+	// tail loops far longer than any depth limit a stepping evaluator might be tempted to impose (TCO is off under a
+	// stepper; the host stack is what bounds them, and 30 000 iterations are well within it)
+	for _, p := range []int{0, 1, 3} {
+		for _, script := range []string{"n", "i"} {
+			emit(fmt.Sprintf("prog=%d n=30000 s=%s", p, script))
 		}
 	}
 	for p := range stepFuturePrograms {
@@ -102,11 +123,13 @@ func (e *stepLongEngine) run(payload string) string {
 	}
 	var p, n int
 	var script string
-	if _, err := fmt.Sscanf(payload, "prog=%d n=%d s=%s", &p, &n, &script); err != nil || p < 0 || (p >= len(stepLongPrograms) && (p < 100 || p-100 >= len(stepFuturePrograms))) {
+	if _, err := fmt.Sscanf(payload, "prog=%d n=%d s=%s", &p, &n, &script); err != nil || p < 0 || (p >= len(stepLongPrograms) && (p < 100 || (p < 200 && p-100 >= len(stepFuturePrograms)) || (p >= 200 && p-200 >= len(stepRawPrograms)))) {
 		return "bad-case"
 	}
 	src := ""
-	if p >= 100 {
+	if p >= 200 {
+		src = stepRawPrograms[p-200]
+	} else if p >= 100 {
 		src = stepFuturePrograms[p-100]
 	} else {
 		src = stepLongPrograms[p]
